@@ -5,6 +5,8 @@ SPEC definitions for C14 (mapping API: dictionary laws + agreement of the text w
 Nothing here is a model of code; these are the notions the property is stated with.
 -/
 namespace Nima
+-- name tokens are compared by spelling in this file (see `NameCmp` in Model/Edit.lean)
+attribute [local instance] NameCmp.spelled
 
 open Node
 
